@@ -4,7 +4,7 @@ cd /verif
 for d in seeded/${1:-*}/; do
   n=$(basename $d); p=${n:0:3}
   if [ -n "$(git -C /repo status --porcelain)" ]; then echo "REPO-DIRTY before $n"; exit 2; fi
-  if ! git -C /repo apply $d/patch.diff 2>/dev/null; then echo "$n NOAPPLY"; continue; fi
+  if ! git -C /repo apply /verif/$d/patch.diff 2>/dev/null; then echo "$n NOAPPLY"; continue; fi
   out=$(./check $p --tier quick 2>&1 | grep -E "^OK|VIOLATION" | head -1 | cut -c1-110)
   git -C /repo checkout -- .
   case "$out" in
